@@ -58,7 +58,7 @@ WriteBodies == <<"none", "small", "small", "small", "mid", "chunksmall", "chunks
 WriteBodiesLight == <<"none", "small", "small", "small", "mid", "chunksmall", "chunksmall", "overdecl">>
 
 RndReq(s, n) ==
-    LET aimed == s.regs # {} /\ Rnd(1..10, n) <= 8
+    LET aimed == s.regs # {} /\ Rnd(1..10, n) <= 9
         \* mostly at endpoints this request may call without authentication
         open == {e \in s.regs : e.rd \in {-1, 0, 1} /\ e.wr \in {-1, 0, 1}}
         tgt == IF ~aimed THEN 0 ELSE IF open # {} /\ Rnd(1..10, n + 1) <= 9 THEN Rnd(open, n + 2).p ELSE Rnd(s.regs, n + 3).p
@@ -74,8 +74,9 @@ RndReq(s, n) ==
         hdr |-> Rnd(1..3, n + 11) = 1, ct |-> Rnd(1..5, n + 12) = 1, tp |-> tgt]
 
 FamBag(s) == IF Cardinality(s.regs) < 3
-             THEN <<"reg", "reg", "reg", "reg", "req", "list", "mod">>
-             ELSE <<"reg", "reg", "req", "req", "req", "req", "req", "req", "req", "req", "req", "list", "bypath", "mod", "mod", "race">>
+             THEN <<"reg", "reg", "reg", "reg", "reg", "reg", "req", "req", "list", "mod", "race">>
+             ELSE <<"reg", "reg", "req", "req", "req", "req", "req", "req", "req", "req", "req", "req", "req", "req",
+                    "list", "bypath", "mod", "race">>
 RndOp(s, n) ==
     LET f == Bag(FamBag(s), n) IN
     CASE f = "reg"    -> Op("reg", RndDecl(s, n + 100), NullQ, FALSE, "", 0, <<>>)
